@@ -27,7 +27,7 @@ META = {
              'distinct_nontrivial = distinct tables with a concept carrying >= 2 labels of one '
              'kind or a label on an extreme concept.'),
     'evaluation_counters': ['judged_labels', 'judged_str_concept', 'judged_str_lattice'],
-    'required_counters': ['judged_labels', 'judged_labels_init', 'judged_labels_fromlist',
+    'required_counters': ['judged_labels', 
                           'judged_labels_loaded_raw', 'judged_labels_unpickled',
                           'judged_labels_session_recheck', 'judged_str_concept', 'judged_str_lattice',
                           'concepts_with_several_object_labels', 'concepts_with_several_property_labels',
